@@ -108,4 +108,4 @@ def cases(tier, seed, ctx=None):
             j = rng.choice(JSONS)
             resp = setters(rng, rng.range(0, 2)) + [rng.choice([G.WriteError(rng.choice(CODES), rng.choice(REASONS)), G.WriteJson(j, rng.choice(CODES), rendered[j])])]
         ops = [G.Construct, G.Feed(head + body), G.Turn, G.Ack(100000)]
-        yield ("sock", [[resp, [], []], ops, G.env_for(rver, rtab, [q["raw"]]), [9]], "answered-request-method-%d" % q["method"])
+        yield ("sock", [[resp, [], []], ops, G.env_for(rver, rtab, [q["raw"]]), [3]], "answered-request-method-%d" % q["method"])
